@@ -87,11 +87,22 @@ def attribute(cin, items, with_index=False):
     return out if with_index else [x[:3] for x in out]
 
 
+ALIASES = {}      # alias name -> expanded member list (set by the layer for the configuration in use)
+
+
+def exp_aliases(names):
+    """conf_exp_aliases on an expanded name list: the names that are no alias, in order, then the members of every alias
+    occurrence in the order met (an alias typed twice is expanded twice; no recursion)"""
+    if not ALIASES: return names
+    keep = [n for n in names if n not in ALIASES]
+    return keep + [m for n in names if n in ALIASES for m in ALIASES[n]]
+
+
 def parse_req(ln):
     s = ln.split(b'\0')[0].strip()
     m = re.match(rb'^(on|off|cycle|reset|flash|unflash|status|temp|beacon)\s+(\S+)$', s, re.I)
     if not m: return None
-    try: targets = expand_hl(m.group(2))
+    try: targets = exp_aliases(expand_hl(m.group(2)))
     except Exception: return None
     return m.group(1).lower(), targets, s
 
